@@ -496,7 +496,7 @@ theorem assertRange_spec (hinv : Inv s) (hx : Good s x) (hlo : Good s lo) (hhi :
   · cases h
   · obtain ⟨u1, s1, h1, h⟩ := bind_ok.mp h
     obtain ⟨le1, f1, inv1⟩ := assertPositive_spec hinv (hx.sub hlo) h1
-    obtain ⟨le2, f2, inv2⟩ := assertPositive_spec inv1 ((hhi.sub hx).mono le1) h
+    obtain ⟨le2, f2, inv2⟩ := assertPositive_spec inv1 (((hhi.sub hx).subI 1).mono le1) h
     exact ⟨le1.trans le2, f1.trans f2, inv2⟩
 end asserts
 
